@@ -26,7 +26,7 @@ CPUS = {
     "m8c": (1, 3, 300, "quick", [], False),
     "sweet16": (1, 3, 300, "quick", [], False),
     "65816": (1, 4, 300, "quick", [], False),
-    "stm8": (1, 5, 900, "thorough", ["STRINGS_ABSTRACT"], False),
+    "stm8": (1, 5, 900, "quick", ["STRINGS_ABSTRACT"], False),
     # z80 (reads ahead, 2-safety form) was tried and does not finish (out of memory at 10 GB, timeout at 2400 s with 30 GB): not decided
 }
 GROUPS = []
